@@ -553,6 +553,26 @@ UriBool URI_FUNC(CopyAuthority)(URI_TYPE(Uri) * dest,
 
 
 
+/* A path that does not start with "/" but has an empty first segment
+ * followed by more segments recomposes to (and is parsed back as) a path
+ * that does start with "/": represent it that way.
+ * NOTE: Not to be used for relative-path references (no scheme, no host). */
+void URI_FUNC(FixEmptyFirstSegment)(URI_TYPE(Uri) * uri,
+		UriMemoryManager * memory) {
+	URI_TYPE(PathSegment) * const head = uri->pathHead;
+	if (!uri->absolutePath
+			&& !URI_FUNC(IsHostSet)(uri)
+			&& (head != NULL)
+			&& (head->next != NULL)
+			&& (head->text.first == head->text.afterLast)) {
+		uri->pathHead = head->next;
+		memory->free(memory, head);
+		uri->absolutePath = URI_TRUE;
+	}
+}
+
+
+
 UriBool URI_FUNC(FixAmbiguity)(URI_TYPE(Uri) * uri,
 		UriMemoryManager * memory) {
 	URI_TYPE(PathSegment) * segment;
@@ -563,21 +583,14 @@ UriBool URI_FUNC(FixAmbiguity)(URI_TYPE(Uri) * uri,
 		return URI_TRUE;
 	}
 
-	if (	/* Case 1: absolute path, empty first segment followed by more,
-			 *         i.e. path text starts with "//" */
-			(uri->absolutePath
-			&& (uri->pathHead != NULL)
-			&& (uri->pathHead->next != NULL)
-			&& (uri->pathHead->text.afterLast == uri->pathHead->text.first))
+	URI_FUNC(FixEmptyFirstSegment)(uri, memory);
 
-			/* Case 2: relative path, empty first and second segment followed
-			 *         by more, i.e. path text starts with "//" */
-			|| (!uri->absolutePath
+	if (	/* Absolute path, empty first segment followed by more,
+			 * i.e. path text starts with "//" */
+			uri->absolutePath
 			&& (uri->pathHead != NULL)
 			&& (uri->pathHead->next != NULL)
-			&& (uri->pathHead->next->next != NULL)
-			&& (uri->pathHead->text.afterLast == uri->pathHead->text.first)
-			&& (uri->pathHead->next->text.afterLast == uri->pathHead->next->text.first))) {
+			&& (uri->pathHead->text.afterLast == uri->pathHead->text.first)) {
 		/* NOOP */
 	} else {
 		return URI_TRUE;
